@@ -43,6 +43,21 @@ CHECKS = {
         "running random and exhaustively arranged disjunctions of infinite producers, silent divergers, statically-true clauses and "
         "finite goals on the real engine and in the model (first 12 answers diffed); oracle: every branch run alone must see its first "
         "answers delivered by the combined program within a proportional step budget (a starved branch exhausts it deterministically)."),
+    "C08": dict(text="Full-strength theorems about the Lean model of Solver::peek/trunc and Conda/Condu/onceo, generic in the state type: peek "
+        "returns the head's own stream after finitely many SILENT steps (no answer delivered, dropped or duplicated; C08_peek, C08_peek_seq), "
+        "trunc keeps exactly the first answer next would return (C08_trunc); conda is the head's stream bound to the rest when the head has an "
+        "answer and exactly the remaining clauses otherwise, also for infinite heads (C08_conda, C08_conda_commit, C08_conda_skip); condu and "
+        "onceo keep exactly the first head answer in engine order, also when it appears only after lazy steps or the head is infinite "
+        "(C08_condu, C08_onceo). Tied to the code by programs whose heads have 0/1/many/lazy/infinite answers run on the real engine and in "
+        "the model (answer sequences diffed); oracle: reference soft-cut semantics assembled from runs of the heads alone on the real engine."),
+    "C10": dict(text="PARTIAL by nature (stated in DESIGN.md): theorems give the algebraic law the code must refine — answers of conde {A, B} from a state "
+        "are exactly the union of A alone and B alone from that state, for finite searches as multisets (C10_union, C10_union_inv, "
+        "C10_union_dfs) and for arbitrary infinite/interleaved branches as membership (C10_union_mem); a step of a disjunction node leaves the "
+        "other branch syntactically unchanged (C10_frame, C10_mplus_states). That the Rust code (Rc clone-on-write, shared constraint objects) "
+        "refines this law cannot be shown by a value-semantics model and is decided by the correspondence: combined vs separate runs on the "
+        "real engine over bindings, disequalities, domains, FD constraints (shared distinctfd object) and CLP(Z), multisets compared, plus the "
+        "model/implementation diff of the combined run.",
+        technique="Lean 4 theorems about an executable model (algebraic law) + differential combined-vs-separate runs of the implementation"),
     "C18": dict(text="Full-strength theorems (21, for all well-formed domains in both representations, all integers, all predicates): "
         "intersect/diff/is_disjoint/contains/min/max/is_singleton/singleton_value/iteration/==/copy_before/drop_before/From<Vec> of the Lean "
         "model of fd.rs equal the set operations, None exactly on empty results, results well-formed again. The model is tied to fd.rs by "
